@@ -3,6 +3,10 @@
 import json, subprocess
 
 CHECKS = {
+ "C02": dict(engine="memrace", category="exploration", design="§5 C02",
+   text="memrace: generated programs (2-4 threads x 1-5 ops: insert / remove / get / contains / touch / get_or_fetch / clear / resize / evict_all / drop or re-read a held handle; 2-3 keys biased to one key, capacities 1-6, shards 1-4 with an identity hasher so keys share and span shards, five algorithms) run on real OS threads against one Cache. (sched) the harness owns the schedule: foyer (feature verif) calls a schedule point before every shard critical section and after the last reference of a handle is released; a baton lets exactly one program thread run, so the order of critical sections and unlocked windows is the generated schedule - deterministic and replayable; small programs (2 threads x <= 2 ops, 3 threads x 1 op) are enumerated over every schedule up to a preemption bound of 2 (quick) / 3 (thorough). (free) the same programs on free-running threads with seeded jitter at the same points, 20/100 runs each. Every op is stamped invoke/response from one SeqCst counter; oracle = per-key Wing-Gong linearizability search against a register over {absent} U versions whose reads may miss, plus bit-exact validation of every handle when obtained, on demand, at thread end.",
+   note="sched mode explores orders of critical sections and of the unlocked windows between them, not data races inside a critical section; free mode samples OS interleavings (sound oracle, sampling search). evict_all / resize are modelled as 'may evict' (pinned entries legitimately survive). A get_or_fetch answered by another call may still insert its own fetched value later (its fetch task is no longer synchronised with the caller): modelled as an optional write from the moment the origin produced the value. A hang or a crash of the check process is reported as inconclusive (exit 2).",
+   technique="property-based testing of concurrent programs with a harness-owned schedule (proptest random + bounded-exhaustive schedule enumeration) and free-running stress, per-key linearizability oracle"),
  "C01": dict(engine="hybsim", category="exploration", design="§5 C01, §3.1-3.2",
    text="hybsim: HybridCache on a simulated device + io engine (feature verif) with all foyer tasks on one harness-driven runtime; the generated history owns the device-io completion order (hold / complete i-th / drain), memory eviction, handle drops, graceful reopen. Versioned self-describing values; oracle = per-key write timeline with linearization windows: a lookup may return a miss or a version that no other write definitely supersedes before the lookup started; values validate bit for bit. 60k (quick) / 1.5M (thorough) random histories over both policies, five algorithms, tombstone on/off, none/zstd/lz4, flushers/reclaimers 1-2, 4-8 blocks, sizes 0 .. per-entry max + 1.",
    note="Documented carve-outs are modelled, not ignored: shedding limits (cases discarded and counted), placement class fixed per key, no tombstone log => reopen may bring back removed/updated entries, no flush_on_close => reopen may bring back older versions. Two design-level known findings (disk-only entries with a held handle; LRU-pinned entry at close) are tolerated by structural signature. Single OS thread: task interleavings at await points are explored, not data races.",
@@ -114,6 +118,8 @@ def main():
         "engines": [
             {"name": "memsim", "path": "/verif/harness/core/src/memsim.rs", "serves_properties": ["C05", "C13", "C14", "C16", "C17", "C18"],
              "kind_free_text": "single-threaded interpreter for foyer::Cache histories + event-driven reference model (memoracle.rs) + eviction reference models (evmodel.rs)"},
+            {"name": "memrace", "path": "/verif/harness/core/src/memrace.rs", "serves_properties": ["C02"],
+             "kind_free_text": "executes generated multi-thread programs against foyer::Cache on real threads, either under a harness-owned schedule (baton passed at foyer's verif schedule points) or free-running with jitter; history recorder + per-key linearizability checker"},
             {"name": "hybsim", "path": "/verif/harness/core/src/hybsim.rs", "serves_properties": ["C01", "C03", "C04", "C07", "C09", "C10", "C12", "C15", "C17"],
              "kind_free_text": "deterministic interpreter for HybridCache histories on a simulated device/io engine (simdev.rs) with harness-owned io completion order; oracles in hyboracle.rs; independent format reader fmtparse.rs"},
             {"name": "fmt", "path": "/verif/harness/core/src/c08check.rs", "serves_properties": ["C08"],
